@@ -255,7 +255,7 @@ r175:
 			}
 		}
 		allowedCallers := map[string]bool{
-			pkgCmdAge + ".parseRecipient": true, pkgCmdAge + ".parseIdentity": true,
+			pkgCmdAge + ".parseRecipient": true, pkgCmdAge + ".parseIdentity": true, pkgCmdAge + ".parseIdentities": true,
 			pkgCmdAge + ".encryptNotPass": true, pkgCmdAge + ".decryptNotPass": true,
 		}
 		for _, cn := range []string{"NewRecipient", "NewIdentity", "NewIdentityWithoutData"} {
